@@ -83,6 +83,8 @@ def write_overlay(ctx, job, native, gdir):
     for i, h in enumerate(job.harness):
         rep[os.path.join(base, "zz_verif_h%d.go" % i)] = harness_path(h)
     for virt, real in job.extra_overlay.items():
+        if native and os.path.exists(real + ".native"):
+            real = real + ".native"       # file with real bodies for the replay build
         rep[virt] = real
     return rep
 
